@@ -1,7 +1,7 @@
 (* C02 correspondence glue: decidable equality of projections (maps compared as maps) and the case check
    `denote spec = observed`. *)
 From Coq Require Import String List ZArith Ascii Bool.
-Require Import Verif.Base.Harness Verif.Front.Ast Verif.Front.Denote.
+Require Import Verif.Base.Harness Verif.Front.Ast Verif.Front.Denote Verif.Front.Canon.
 Import ListNotations.
 Local Open Scope string_scope.
 
@@ -107,5 +107,10 @@ Definition app_eqb (a b:app) :=
 Definition module_eqb := amap_eqb app_eqb.
 
 (* one correspondence case: the abstract specification and what the real compiler produced for its text
-   (None: the text was rejected) *)
-Definition ok (c : spec * option module) : bool := option_eqb module_eqb (denote (fst c)) (snd c).
+   (None: the text was rejected). The listener model must reproduce it; and whenever the specification is in the
+   sub-language of Front/Canon.v, well-formed and not re-scoped, so must the declarative reading `canon`
+   (by CanonProps.denote_canon the two coincide there - this ties `canon` itself to the implementation). *)
+Definition ok (c : spec * option module) : bool :=
+  option_eqb module_eqb (denote (fst c)) (snd c) &&
+  (if wf_sub (fst c) && no_mixins (canon (fst c)) && no_rescope (canon (fst c))
+   then option_eqb module_eqb (Some (canon (fst c))) (snd c) else true).
